@@ -117,6 +117,16 @@ func (c *Ctx) check(cond bool, key string, pos token.Pos, okMsg, badMsg string) 
 
 func (c *Ctx) stat(name string, n int) { c.stats[c.curRule+"."+name] += n }
 
+// note records what a textual (shape-dependent) comparison saw without letting it decide: the deciding
+// obligation for the same fact is a semantic one that does not depend on the layout of the code.
+func (c *Ctx) note(cond bool, key string, pos token.Pos, okMsg, otherMsg string) {
+	if cond {
+		c.trivial(key, pos, "%s", okMsg)
+	} else {
+		c.trivial(key, pos, "layout not recognised by the textual comparison (not deciding): %s", otherMsg)
+	}
+}
+
 // minimum instance count: a rule that matches fewer sites than confirmed by
 // hand fails (never passes vacuously).
 func (c *Ctx) atLeast(what string, got, min int) {
